@@ -20,6 +20,7 @@ def find_body(f, struct, method):
 def run(ck):
     f = ck.facts
     ngen = npar = 0
+    utils_cells = set()
     for struct, kind in KINDS.items():
         adt = f.adts.get('utils::' + struct)
         if adt is None:
@@ -83,6 +84,9 @@ def run(ck):
         for r in a.events('call'):
             if r.data[1] != GEN_HDR:
                 continue
+            hp = hdr_cell(a, f, r)
+            if hp is not None:
+                utils_cells.add(hp)
             g = r.data[3][2]
             ck.obligations += 1
             if g == fld['gse_len']:
@@ -151,6 +155,26 @@ def run(ck):
                 else:
                     ck.discharged += 1
                 ck.sample({'struct': struct, 'label type': ln_, 'parsed fields at layout offsets': not bad})
+    # ---- R3: "the generated bytes are exactly what the encapsulator emits": both sides hand the same (kind, label type) cells to
+    # the shared header encoder - in particular the label-type bits of the label-less intermediate and end packets agree
+    from rules import c09
+    enc_cells = set()
+    for wname in c09.WRITERS:
+        wa = analyse_writer(ck, ENC + wname, extra=c09.ENCCFG)
+        for r in wa.events('call'):
+            if r.data[1] == GEN_HDR:
+                hp = hdr_cell(wa, f, r)
+                if hp is not None:
+                    enc_cells.add(hp)
+    ck.obligations += 1
+    if utils_cells and utils_cells == enc_cells:
+        ck.discharged += 1
+    else:
+        for kn, ln_ in sorted(utils_cells - enc_cells):
+            ck.finding('C20.R3', 'utils', f"cell-only-utils:{kn}:{ln_}", f"utils generate builds a ({kn}, label type {ln_}) header, the encapsulator never does")
+        for kn, ln_ in sorted(enc_cells - utils_cells):
+            ck.finding('C20.R3', 'utils', f"cell-only-encap:{kn}:{ln_}", f"the encapsulator builds a ({kn}, label type {ln_}) header, utils generate never does: the bytes differ in the label-type bits")
+    ck.rule('C20.R3 (kind, label type) header cells of utils generate and of the encapsulator compared', len(utils_cells) + len(enc_cells), 16)
     ck.rule('C20.R1 writes of the four generate functions classified against the layout', ngen, 30)
     ck.rule('C20.R2 return paths of the four parse functions by header cell', npar, 30)
     ck.assumptions += ['the inverse property (parse(generate(x)) == x for well-formed x, generate = what the encapsulator emits) follows from both sides matching the same ETSI table that C06 checks the encapsulator against and C01/C02 the decapsulator',
@@ -162,6 +186,16 @@ def run(ck):
                      'with the ETSI field table that the encapsulator (C06) and decapsulator are checked against; generate passes its kind constant, '
                      "the label's type and its gse_len to the shared header encoder; parse accepts exactly its own kind."),
         trusted=['analysis/stdsum.py'])
+
+
+def hdr_cell(a, f, r):
+    """(kind name, label type name) handed to generate_gse_header at this call, when both are decided"""
+    W = r.data[5]
+    kv = a.I.read(W, r.data[3][0][1]) if r.data[3][0][0] == 'ref' else None
+    lv = a.I.read(W, r.data[3][1][1]) if r.data[3][1][0] == 'ref' else None
+    if kv is None or lv is None or kv[0] != 'enum' or lv[0] != 'enum' or len(kv[1]) != 1 or len(lv[1]) != 1:
+        return None
+    return (f.variant_name(PKT, kv[1][0][0]), f.variant_name(LT, lv[1][0][0]))
 
 
 def classify(a, W, src, fld, self_root, fnames):
